@@ -478,6 +478,34 @@ pub const QUERY_DOCS: [&str; 3] = [
     "<r/>",
 ];
 
+// (document, expression, string value of the result); q is bound to "u", w to "w"
+pub const NAME_CASES: [(&str, &str, &str); 24] = [
+    ("<r xmlns='u' a='1'><b c='2'/></r>", "count(//@a)", "1"),
+    ("<r xmlns='u' a='1'><b c='2'/></r>", "count(//@q:a)", "0"),
+    ("<r xmlns='u' a='1'><b c='2'/></r>", "namespace-uri(//@a)", ""),
+    ("<r xmlns='u' a='1'><b c='2'/></r>", "count(//q:b/@c)", "1"),
+    ("<r xmlns='u' a='1'><b c='2'/></r>", "count(//q:b)", "1"),
+    ("<r xmlns='u' a='1'><b c='2'/></r>", "count(//b)", "0"),
+    ("<r xmlns='u' a='1'><b c='2'/></r>", "name(//@c)", "c"),
+    ("<r xmlns='u' a='1'><b c='2'/></r>", "namespace-uri(/*/*)", "u"),
+    ("<r xmlns:p='u' p:a='1' a='2'/>", "count(//@q:a)", "1"),
+    ("<r xmlns:p='u' p:a='1' a='2'/>", "count(//@a)", "1"),
+    ("<r xmlns:p='u' p:a='1' a='2'/>", "string(//@q:a)", "1"),
+    ("<r xmlns:p='u' p:a='1' a='2'/>", "string(//@a)", "2"),
+    ("<r xmlns:p='u' p:a='1' a='2'/>", "namespace-uri(//@q:a)", "u"),
+    ("<r xmlns='u'><a xmlns=''><b/></a><c/></r>", "count(//q:*)", "2"),
+    ("<r xmlns='u'><a xmlns=''><b/></a><c/></r>", "count(//a/b)", "1"),
+    ("<r xmlns='u'><a xmlns=''><b/></a><c/></r>", "namespace-uri(//a)", ""),
+    ("<r xmlns:p='u'><a xmlns:p='w'><p:b/></a><p:c/></r>", "count(//w:b)", "1"),
+    ("<r xmlns:p='u'><a xmlns:p='w'><p:b/></a><p:c/></r>", "count(//q:b)", "0"),
+    ("<r xmlns:p='u'><a xmlns:p='w'><p:b/></a><p:c/></r>", "count(//q:c)", "1"),
+    ("<r xmlns:p='u'><a xmlns:p='w'><p:b/></a><p:c/></r>", "name(//q:c)", "p:c"),
+    ("<r xml:lang='en'/>", "namespace-uri(//@*)", "http://www.w3.org/XML/1998/namespace"),
+    ("<r xml:lang='en'/>", "count(//@lang)", "0"),
+    ("<n:r xmlns:n='u' xmlns:m='u'><m:a/></n:r>", "count(//q:a) + count(/q:r)", "2"),
+    ("<n:r xmlns:n='u' xmlns:m='u'><m:a/></n:r>", "local-name(/*/*)", "a"),
+];
+
 pub const FUNC_DOCS: [&str; 2] = [
     "<r xml:lang='\u{65e5}\u{672c}\u{8a9e}' lang='e\u{20ac}'><a lang='\u{e9}' x='\u{1d4b3}'>\u{e9}\u{20ac}\u{1d4b3}</a><b lang=''/><!--\u{e9}--><?p \u{e9}?></r>",
     "<!DOCTYPE r [<!ATTLIST r i ID #IMPLIED>]><r i='k' lang='en-US'><a lang='EN'>x</a> </r>",
@@ -563,6 +591,20 @@ pub fn xpath_query_op(kind: &str, a: &Args) -> Option<Outcome> {
             let (query, want) = table.iter().find(|t| t.0 == q.as_str()).copied()?;
             let observed = guard(|| show_query(&doc, query, &mut Context::default()));
             Some(Outcome { observed, expected: format!("Number({}.0 bits:{:#018x})", want, want.parse::<f64>().unwrap().to_bits()), note: d.to_string() })
+        }
+        // C10: name tests and name functions against expanded names; the caller binds q -> "u" and w -> "w"
+        "names" => {
+            let want = a.get("expected").cloned().unwrap_or_default();
+            let observed = guard(|| {
+                let mut c = Context::default();
+                c.add_ns(Some("q"), "u");
+                c.add_ns(Some("w"), "w");
+                match xml_xpath::query(doc.clone(), q.as_str(), &mut c) {
+                    Ok(v) => String::try_from(&v).unwrap_or_else(|_| "Err(conversion)".to_string()),
+                    Err(_) => "Err".to_string(),
+                }
+            });
+            Some(Outcome { observed, expected: want, note: docs.clone() })
         }
         // C06: a value or an error, never a panic
         "no_panic" => {
@@ -944,6 +986,11 @@ pub fn xpath_grid(rest: &[&str]) -> Vec<Args> {
                       "count(/r/child::*)", "count(/r/descendant::*)", "count(/r/a/following-sibling::*)", "count(/r/b/preceding-sibling::*)", "count(/r/namespace::*)", "count(/r/namespace::node())",
                       "count((/r/*)[1]/self::a)", "count(/r/*[2]/self::b)", "count(/r/*[last()]/self::b)", "count(/r/*[position() = 1]/self::a)"] {
                 out.push(mk(&[("query", q)]));
+            }
+        }
+        ["query", "names"] => {
+            for (d, q, e) in NAME_CASES {
+                out.push(mk(&[("doc", d), ("query", q), ("expected", e)]));
             }
         }
         ["query", kind] => {
